@@ -5,6 +5,8 @@ import (
 	"crypto/ecdsa"
 
 	"github.com/ethereum/go-ethereum/common"
+	"github.com/jackc/pgx/v4"
+	"github.com/jackc/pgx/v4/pgxpool"
 
 	"github.com/shutter-network/rolling-shutter/rolling-shutter/keyper/database"
 	"github.com/shutter-network/rolling-shutter/rolling-shutter/keyper/kprconfig"
@@ -33,7 +35,80 @@ func vfStubGetAndDelete(q *database.Queries, ctx context.Context) ([]database.Ge
 	if vfQueryErr {
 		return nil, vfErr("db")
 	}
+	if vfTwoTicks {
+		// the query deletes what it returns (undone only if an enclosing transaction fails)
+		out := vfTable
+		vfTable = nil
+		return out, nil
+	}
 	return vfRows, nil
+}
+
+var (
+	vfTwoTicks bool
+	vfTable    []database.GetAndDeleteEonPublicKeysRow // pending rows of eon_public_keys
+	vfHanded   []int                                   // per key (by eon): handovers the mechanism accepted
+	vfReject   bool
+)
+
+// a transaction around the query and the handover: commit on success, roll the table back on error
+//
+//verif:stub (*github.com/jackc/pgx/v4/pgxpool.Pool).BeginFunc
+func vfStubBeginFunc20(p *pgxpool.Pool, ctx context.Context, f func(pgx.Tx) error) error {
+	snapshot := append([]database.GetAndDeleteEonPublicKeysRow(nil), vfTable...)
+	err := f(nil)
+	if err != nil {
+		vfTable = snapshot
+	}
+	return err
+}
+
+func vfHandOver(eon uint64) error {
+	if vfBool("mechanism-rejects") {
+		return vfErr("publication")
+	}
+	if eon < uint64(len(vfHanded)) {
+		vfHanded[eon]++
+	}
+	return nil
+}
+
+type vfMessaging2 struct{ vfMessaging }
+
+func (vfMessaging2) SendMessage(ctx context.Context, m p2pmsg.Message, _ ...retry.Option) error {
+	return vfHandOver(m.(*p2pmsg.EonPublicKey).Eon)
+}
+
+// Two polling ticks, the publication mechanism may refuse any single handover: a key the
+// mechanism has accepted is never handed over again (exactly once), whatever happens to the
+// other keys of the same tick.
+func H_C20_two_ticks() {
+	vfTwoTicks = true
+	defer func() { vfTwoTicks = false }()
+	vfOwn = vfAny[common.Address]("own")
+	vfInstance = vfU64("instance")
+	n := vfLen("rows", vfParam("rows", 2))
+	vfTable, vfHanded = nil, make([]int, n)
+	for i := 0; i < n; i++ {
+		ks := []string{shdb.EncodeAddress(vfAny[common.Address]("other")), shdb.EncodeAddress(vfOwn)}
+		r := database.GetAndDeleteEonPublicKeysRow{EonPublicKey: vfBytes("eonkey", 4), Eon: int64(i), ActivationBlockNumber: vfI64("activation"), Keypers: ks, KeyperConfigIndex: vfI32("cfgindex")}
+		vfAssume(r.ActivationBlockNumber >= 0 && r.KeyperConfigIndex >= 0)
+		vfTable = append(vfTable, r)
+	}
+	vfQueryErr = false
+	cfg := &kprconfig.Config{InstanceID: vfInstance, Ethereum: &configuration.EthnodeConfig{PrivateKey: &keys.ECDSAPrivate{}}}
+	pkh := &eonPubKeyHandler{config: cfg, messaging: vfMessaging2{}, broadcastEonPubKey: vfBool("broadcast-mode")}
+	if !pkh.broadcastEonPubKey {
+		pkh.eonPubkeyHandler = func(ctx context.Context, k EonPublicKey) error { return vfHandOver(k.Eon) }
+	}
+	_ = pkh.queryAndHandleNewEonPubKeys(context.Background())
+	_ = pkh.queryAndHandleNewEonPubKeys(context.Background())
+	for i := 0; i < n; i++ {
+		vfAssert(vfHanded[i] <= 1, "a-key-the-mechanism-accepted-is-not-handed-over-again")
+	}
+	if n >= 2 {
+		vfReach("several-keys")
+	}
 }
 
 //verif:stub (*github.com/shutter-network/rolling-shutter/rolling-shutter/keyper/kprconfig.Config).GetAddress
